@@ -88,12 +88,17 @@ def source_features(text):
             head = re.match(r"[A-Z]+\$?", s)
             hw = head.group(0) if head else ""
             if "has-conv" in nf:
-                if hw.startswith("READ"):
-                    f.add("conv-in-read")
-                if hw.startswith("INPUT") or s.startswith("LINE"):
-                    f.add("conv-in-input")
-                if hw.startswith("WIDTH"):
-                    f.add("conv-in-width")
+                nostr = re.sub(r'"[^"]*"?', '""', s)
+                for part in re.split(r"THEN|ELSE", nostr):
+                    part = part.strip()
+                    if not (TOKSET(part) & CONVERTIBLE):
+                        continue
+                    if part.startswith("READ"):
+                        f.add("conv-in-read")
+                    if part.startswith("INPUT") or part.startswith("LINE"):
+                        f.add("conv-in-input")
+                    if part.startswith("WIDTH"):
+                        f.add("conv-in-width")
                 if hw.startswith("IF") and re.search(r"\bELSE\b|ELSE", s):
                     # which part holds the convertible call?
                     m = re.match(r"IF(.*?)THEN", s)
@@ -108,8 +113,19 @@ def source_features(text):
                     m3 = re.search(r"=\s*(INT|VAL|STR\$|HEX\$|INSTR|STRING\$|BUTTON|JOYSTK|POINT)\s*\((.*)\)\s*$", s)
                     if m3 and (TOKSET(m3.group(2)) & CONVERTIBLE):
                         f.add("direct-conv-assign-with-conv-arg")
-            if hw.startswith("HPRINT"):
-                m = re.search(r"\)\s*,\s*(.*)$", s)
+            for mh in re.finditer(r"HPRINT", s):
+                i = s.find("(", mh.end())
+                depth = 0
+                j = i
+                while 0 <= j < len(s):
+                    if s[j] == "(":
+                        depth += 1
+                    elif s[j] == ")":
+                        depth -= 1
+                        if depth == 0:
+                            break
+                    j += 1
+                m = re.match(r"\s*,\s*(.*)$", s[j + 1:]) if i >= 0 else None
                 if m and not re.match(r'\s*("|[A-Z][A-Z0-9]*\$|LEFT\$|RIGHT\$|MID\$|CHR\$|STR\$|HEX\$|STRING\$|INKEY\$)', m.group(1)):
                     f.add("hprint-numeric")
             if "JOYSTK" in TOKSET(s):
